@@ -49,6 +49,13 @@ def _cases(R, G, t, n):
     return out
 
 
+BRACKET_TOK = ['[', '[', ']', ']', '^', '!', '-', '[:alpha:]', '[:digit:]', '/', '@(', '+(', ')', 'x', '\\', ':]', '[:', '|', '*']
+BRACKET_SPLIT_PATS = ['[[:digit:]@(]x/y)', '[]@(]x/y)', '[^]@(]x/y)', '[!]@(]x/y)', '[![:alpha:]@(]/y)', '[^[:alpha:]@(]/y)',
+                      '[a[:digit:]@(]x/y)', '[-]@(]x/y)', '[[]@(]x/y)', '[[@(]x/y)', '@([[:digit:])]/y)', '+([])]/y)', '[]a]/b',
+                      '[^]a]x/y', '[![:alpha:]/]', '[[:digit:]/]', '[]/]', '[[:alph:]@(]x/y)', '[[:digit:]\\]@(]x/y)',
+                      '[\\]@(]x/y)', '[[:digit:]][@(]x/y)', '*[]]/b', '[]-a]/b', '[!]]x/y', '[-]]/b', '[[:alpha:][:digit:]@(]/y)']
+
+
 def split_stream(sr, drv, G, W, R, n):
     """`_GlobSplit(p, flags).split()` vs the model's `globSplit` (compiled parts as text)"""
     shape = {'checked': 0, 'bad': []}
@@ -90,6 +97,17 @@ def split_stream(sr, drv, G, W, R, n):
         cases.append((p, fl, isb))
     for p in gen.exhaustive('a*?[]!()|\\/@', 3):
         cases.append((p, W.PATHNAME | W.REALPATH | W.EXTMATCH | W.GLOBSTAR, False))
+    # bracket expressions as the PARSER reads them, next to group-like text and separators (added with the D34 repair: the
+    # splitter's bracket skip took a first `]` for the end, only `!` for the negation, and did not know POSIX classes, so
+    # `[[:digit:]@(]x/y)` lost its `/` to a group that is not there): a fixed list under both EXTMATCH settings + token strings
+    for p in BRACKET_SPLIT_PATS:
+        for fl in (W.PATHNAME | W.REALPATH | W.EXTMATCH, W.PATHNAME | W.REALPATH, W.PATHNAME | W.REALPATH | W.EXTMATCH | W.GLOBSTAR | W.MATCHBASE):
+            cases.append((p, fl, False))
+        cases.append((p, W.PATHNAME | W.REALPATH | W.EXTMATCH, all(ord(c) < 256 for c in p)))
+    for _ in range(n // 2):
+        p = ''.join(R.choice(BRACKET_TOK) for _ in range(R.randint(3, 9)))
+        fl = gen.random_flags(R, bits, 0.15, W.PATHNAME | W.REALPATH | (W.EXTMATCH if R.random() < 0.75 else 0))
+        cases.append((p, fl, R.random() < 0.1))
     outs = drv.ask_many([f'gsplit {fl} {int(isb)} {common.enc(p)}' for p, fl, isb in cases])
     for (p, fl, isb), o in zip(cases, outs):
         sr.evaluations += 1
@@ -259,6 +277,37 @@ def run(ck: Check) -> int:
         K.k5_loop(sr, drv, G, W, U, R, 12 if quick else 120, _odd_cases, on_case, spec_for=_odd_spec)
     if drv:
         ck.stream('K5-dotdot-after-link-and-group-text', s_k5odd)
+
+    # names and patterns made of bracket text: a POSIX class, a leading `]`, `^` as negation, followed by group-like text that
+    # holds the separator (added with the D34 repair: `glob('[[:digit:]@(]x/y)', EXTGLOB)` returned nothing for the file `1x/y)`)
+    def _bracket_spec(R_):
+        spec = [('1x', 'dir', ''), ('1x/y)', 'file', ''), ('1x/y', 'file', ''), (']x', 'dir', ''), (']x/y)', 'file', ''),
+                ('@x', 'dir', ''), ('@x/y)', 'file', ''), (']', 'dir', ''), (']/b', 'file', ''), (']/y)', 'file', ''), ('a', 'dir', ''),
+                ('a/b', 'file', ''), ('zx', 'dir', ''), ('zx/y', 'file', ''), ('zx/y)', 'file', ''), ('[!b', 'dir', ''), ('[!b/]', 'file', ''),
+                ('-]', 'dir', ''), ('-]/b', 'file', ''), ('1', 'dir', ''), ('1/y', 'file', ''), ('1/y)', 'file', ''), ('(', 'dir', ''),
+                ('(/y)', 'file', ''), ('ax', 'dir', ''), ('ax/y', 'file', ''), ('ax/y)', 'file', ''), ('-x', 'dir', ''), ('-x/y)', 'file', '')]
+        keep = [e for e in spec if R_.random() < 0.95]
+        have = {e[0] for e in keep}
+        return [e for e in keep if '/' not in e[0] or e[0].rsplit('/', 1)[0] in have]
+
+    BRACKET_PATS = [p for p in BRACKET_SPLIT_PATS if '\\' not in p] + ['[[:alnum:]]x/*', '[![:digit:]]x/y', '[^[:digit:]]x/y*', '[]1]*/y)']
+
+    def _bracket_cases(R_, t):
+        out = []
+        for p in (R_.sample(BRACKET_PATS, 14) if quick else BRACKET_PATS):
+            fl = 0
+            for nm, pr in (('EXTGLOB', 0.75), ('GLOBSTAR', 0.3), ('MARK', 0.15), ('DOTGLOB', 0.2), ('MATCHBASE', 0.1)):
+                if R_.random() < pr:
+                    fl |= getattr(G, nm)
+            out.append(K.Case(p, fl, None, R_.choice(['root_dir', 'root_dir', 'cwd', 'bytes'])))
+        return out
+
+    def s_k5bracket(sr):
+        sr.note = ('K5 on trees whose names are bracket-and-group text (`1x/y)`, `]x/y)`, `[!b/]`, `-]/b`), searched with patterns whose '
+                   'bracket holds a POSIX class, a leading `]`, `^`/`!` and is followed by `@(`…`/`…`)`; mostly with EXTGLOB')
+        K.k5_loop(sr, drv, G, W, U, R, 10 if quick else 100, _bracket_cases, on_case, spec_for=_bracket_spec)
+    if drv:
+        ck.stream('K5-bracket-text', s_k5bracket)
 
     def s_search(sr):
         sr.note = 'set(glob.glob(p)) vs Spec.denoteTop on the same tree (one pattern, no exclusions)'
